@@ -33,6 +33,8 @@ def run(prog, chk):
     retry_terminates(prog, chk)
     retry_progress(prog, chk)
     containment_every_target(prog, chk)
+    from props import geomalg
+    geomalg.check_sites(prog, chk, "C10")  # the box of a referenced element is the one its attributes define (a defaulted coordinate is a silent resolution)
     C06.output_order(prog, chk)
     error_swallow(prog, chk)
     missing_bbox_default(prog, chk)
